@@ -67,7 +67,18 @@ type seqRun struct {
 	missLog      map[string]float64 // per regained directory: ln of the chance that a fair choice missed it so far
 	nontrivial   bool
 	readers      map[int]*heldReader
+	writers      map[int]*heldWriter
 	droppedFiles map[string]bool // files that existed when a root was last taken out of the configuration
+}
+
+// heldWriter is a file obtained from Create whose remaining Writes and Close happen only after other
+// operations have been made (also on the same key): the value takes effect when Close returns.
+type heldWriter struct {
+	f    fs_db.File
+	op   Op
+	rest []byte
+	werr error
+	cb   callerBuf
 }
 
 // heldReader is a content reader that was handed out by GetReader and is read only later, after
@@ -158,6 +169,62 @@ func (s *seqRun) step(i int, o Op) bool {
 		simrt.Background(o.N)
 	case "drain":
 		s.w.Drain()
+	case "copen":
+		st, ok := s.a.store(o.tx())
+		if !ok {
+			break
+		}
+		f, err := st.Create(s.w.Ctx, o.Key)
+		if err != nil {
+			an := actorName(s.m, o.tx())
+			s.fail("error-class", fmt.Sprintf("op=create,actor=%s", an), fmt.Sprintf("step %d (%s by %s): Create failed: %v", i, o, an, err))
+			return false
+		}
+		hw := &heldWriter{f: f, op: o, rest: payload(o.ID, o.Size)}
+		for k := 0; k < o.Pre && k < len(o.Writes) && hw.werr == nil; k++ {
+			n := o.Writes[k]
+			if _, err := hw.cb.write(f, hw.rest[:n]); err != nil {
+				hw.werr = err
+			}
+			hw.rest = hw.rest[n:]
+		}
+		if s.writers == nil {
+			s.writers = map[int]*heldWriter{}
+		}
+		s.writers[o.N] = hw
+		s.probes["created-file-held-open"]++
+	case "cclose":
+		hw := s.writers[o.N]
+		if hw == nil {
+			break
+		}
+		delete(s.writers, o.N)
+		for k := hw.op.Pre; k < len(hw.op.Writes) && hw.werr == nil; k++ {
+			n := hw.op.Writes[k]
+			if _, err := hw.cb.write(hw.f, hw.rest[:n]); err != nil {
+				hw.werr = err
+			}
+			hw.rest = hw.rest[n:]
+		}
+		cerr := hw.f.Close()
+		r := OpResult{Err: hw.werr}
+		if r.Err == nil {
+			r.Err = cerr
+		}
+		r.Class = classOf(r.Err)
+		co := hw.op
+		co.K = "create"
+		an := actorName(s.m, co.tx())
+		if r.Class == "ErrNoFreeSpace" && s.tightDisk() {
+			// the simulated disk is (nearly) full: the write legitimately fails and is not applied
+			s.faults["write-failed-no-free-space"]++
+			s.idx.add(refmodel.Val{ID: co.ID, Size: co.Size})
+		} else if cl, d := modelApply(s.m, co, r, s.idx); cl != "" {
+			s.fail(cl, fmt.Sprintf("op=create,actor=%s,held", an), fmt.Sprintf("step %d (Close of the file created at an earlier step: %s by %s): %s", i, co, an, d))
+			return false
+		}
+		s.states[s.m.StateHash()] = true
+		s.probes["created-file-closed-after-later-operations"]++
 	case "ropen":
 		st, ok := s.a.store(o.tx())
 		if !ok {
@@ -307,7 +374,7 @@ func (s *seqRun) step(i int, o Op) bool {
 		return false
 	}
 	switch o.K {
-	case "bg", "gctimer", "ropen", "rread":
+	case "bg", "gctimer", "ropen", "rread", "copen":
 	default:
 		s.readBack(o, i)
 	}
@@ -425,6 +492,9 @@ func seqExec(c SeqCase, choices []int32) RunOut {
 		// wind down: end transactions, close
 		for _, hr := range s.readers {
 			hr.rc.Close()
+		}
+		for _, hw := range s.writers {
+			hw.f.Close()
 		}
 		for _, id := range s.m.OpenTxs() {
 			s.a.txs[id].Rollback(w.Ctx)
